@@ -241,6 +241,18 @@ impl History {
         }
         for i in 0..self.ops.len() {
             if let Op::Payloads { vs, native } = &self.ops[i] {
+                if vs.len() > 64 {
+                    // a very long batch: drop chunks (one clone per candidate, not one per item)
+                    let n = vs.len();
+                    for (a, b) in [(0, n / 2), (n / 2, n), (0, n / 4), (n / 4, n / 2), (n / 2, 3 * n / 4), (3 * n / 4, n), (0, 1), (n - 1, n), (1, n - 1)] {
+                        let mut h = self.clone();
+                        let mut v2 = vs.clone();
+                        v2.drain(a..b);
+                        h.ops[i] = Op::Payloads { vs: v2, native: *native };
+                        out.push(h);
+                    }
+                    continue;
+                }
                 for j in 0..vs.len() {
                     let mut h = self.clone();
                     let mut v2 = vs.clone();
@@ -421,6 +433,17 @@ pub fn gen_history(t: &mut Tape, big_per_mille: u32) -> History {
                 2 => Some(*t.pick(&[0u16, 1, 7, 12, 36, 216, 255, 256, 65535])),
                 _ => Some(t.below(64) as u16),
             }),
+            3 if big_per_mille > 0 && t.chance(1, 400) && !ops.iter().any(|o| matches!(o, Op::Payloads { vs, .. } if vs.len() > 1000)) => {
+                // a batch of very many tiny items (more than a 16-bit counter holds), the last one or two of them not empty
+                let k = *t.pick(&[65_534usize, 65_535, 65_536, 65_537, 70_000]);
+                let vs: Vec<Val> = match t.below(4) {
+                    0 => (0..k).map(|_| Val::Bytes { len: 0, seed: 0 }).chain([Val::Bytes { len: 4, seed: 7 }, Val::Bytes { len: 1, seed: 9 }]).collect(),
+                    1 => (0..k).map(|_| Val::Section { len: 0, seed: 0 }).chain([Val::Section { len: 4, seed: 7 }]).collect(),
+                    2 => (0..k).map(|_| Val::Addr(RefAddr2::Unspec)).chain([Val::Addr(RefAddr2::V4 { src: [10, 0, 0, 1], dst: [10, 0, 0, 2], sport: 1, dport: 2 })]).collect(),
+                    _ => (0..k).map(|i| Val::Int { ty: 0, image: (i % 251) as u128 }).collect(),
+                };
+                Op::Payloads { vs, native: true }
+            }
             3 => {
                 let k = t.usize_in(0, 5);
                 let native = t.coin();
